@@ -60,15 +60,18 @@ determinism() {
 robust() {
   # the fallback corpus must build and hold on the unchanged tree, and be what the generator produces
   tmp=$(mktemp -d /tmp/vrob.XXXXXX)
-  python3 gen/gen_corpus.py --seed 7 --out "$tmp/gen" --size robust >/dev/null
   fail=0
-  for f in c05.rs c10.rs c11.rs c17.rs; do
-    cmp -s "$tmp/gen/$f" "sim/corpus/robust/$f" || { echo "committed robust corpus is stale: $f"; fail=$((fail+1)); }
-  done
-  for eng in sim_c05 sim_c10 sim_c11 sim_c17; do
-    (cd sim && VERIF_CORPUS_DIR=/verif/sim/corpus/robust CARGO_TARGET_DIR="$tmp/target" cargo build --offline --bin $eng -q) || { echo "robust corpus does not build for $eng"; fail=$((fail+1)); continue; }
-    "$tmp/target/debug/$eng" --runs 300000 --replay-dir "$tmp/rp" --corpus-tag robust | tail -1
-    [ "${PIPESTATUS[0]}" -eq 0 ] || { echo "robust corpus: violation or error for $eng"; fail=$((fail+1)); }
+  for fb in robust:7 minimal:9; do
+    name=${fb%%:*}; seed=${fb##*:}
+    python3 gen/gen_corpus.py --seed "$seed" --out "$tmp/gen-$name" --size "$name" >/dev/null
+    for f in c05.rs c10.rs c11.rs c17.rs; do
+      cmp -s "$tmp/gen-$name/$f" "sim/corpus/$name/$f" || { echo "committed $name corpus is stale: $f"; fail=$((fail+1)); }
+    done
+    for eng in sim_c05 sim_c10 sim_c11 sim_c17; do
+      (cd sim && VERIF_CORPUS_DIR=/verif/sim/corpus/$name CARGO_TARGET_DIR="$tmp/target" cargo build --offline --bin $eng -q) || { echo "$name corpus does not build for $eng"; fail=$((fail+1)); continue; }
+      "$tmp/target/debug/$eng" --runs 300000 --replay-dir "$tmp/rp" --corpus-tag $name | tail -1
+      [ "${PIPESTATUS[0]}" -eq 0 ] || { echo "$name corpus: violation or error for $eng"; fail=$((fail+1)); }
+    done
   done
   rm -rf "$tmp"
   echo "robust: failures=$fail"
